@@ -161,6 +161,8 @@ def gen(shard, rng, tier):
         for i, case in enumerate(mod.gen(shard["shard"], rng, "quick")):
             if i % stride:
                 continue
+            if getattr(mod.JUDGES[case["j"]], "handles_abnormal", False):
+                continue  # e.g. C18's stuck-source test, where reaching the request cap is the expected outcome
             c = dict(case)
             x = dict(c.get("x") or {})
             x["_from"] = shard["mod"]
